@@ -85,8 +85,27 @@ def gen_overrun(rng, k, sms):
             'nblock': nblock, 'dur': dur}
 
 
+def gen_burst(rng, k):
+    return {'id': f'u{k}', 'pool': {'n_jobs': 2, 'start_method': 'fork'}, 'budget': 150, 'behaviour': {}, 'mode': 'burst', 't': 0.5,
+            'env': {'MPIRE_VERIF_TRACE': '0'},
+            'calls': [{'kind': 'apply_burst', 'burst': rng.choice([100000, 140000]), 'timeout': 0.5, 'gate': 2.0, 'max_wait': 10}]}
+
+
 def oracle(rec):
     res, sc = rec['result'], rec['scenario']
+    if sc['mode'] == 'burst':
+        o = res['calls'][0]
+        if o.get('outcome') != 'ok':
+            return f"burst: raised {o['exc']['type']}: {o['exc']['args'][:120]}"
+        b = o['burst']
+        if b['wrong']:
+            return f"burst: {b['wrong']} quick apply tasks returned a wrong value"
+        if not b['ready'] or b.get('result') != 'TimeoutError':
+            return (f"burst: after {sc['calls'][0]['burst']} quick apply tasks without a timeout, a task blocking 60 s with task_timeout=0.5 "
+                    f"ended as {b.get('result')} (ready={b['ready']}) after {b['elapsed']:.1f}s: the timeout never fired")
+        if b['elapsed'] > 0.5 + slack('fork'):
+            return f"burst: TimeoutError only after {b['elapsed']:.1f}s"
+        return None
     if 'pool_exc' in res:
         return f"{sc['mode']}: leaving the pool raised {res['pool_exc']['type']}: {res['pool_exc']['args'][:120]}"
     sm = sc['pool']['start_method']
@@ -187,6 +206,7 @@ def run(ctx):
     sms = ['fork', 'fork', 'threading', 'forkserver', 'spawn']
     scens = [gen_quiet(rng, k, sms) for k in range(24 if quick else 200)]
     scens += [gen_overrun(rng, k, sms) for k in range(40 if quick else 400)]
+    scens += [gen_burst(rng, k) for k in range(1 if quick else 6)]
     recs = runner.run_many(scens, 'c08', jobs=8)
     bad, hangs = analyse(recs)
     nk, kbad = kernel_differential(rng, 300 if quick else 3000)
